@@ -69,6 +69,10 @@ func newVerifState() *verifState {
 			s.crashDelay = time.Duration(ms) * time.Millisecond
 		}
 	}
+	if v := os.Getenv("VERIF_CRASH_DELAY_MS"); v != "" {
+		ms, _ := strconv.Atoi(v)
+		s.crashDelay = time.Duration(ms) * time.Millisecond
+	}
 	if v := os.Getenv("VERIF_HOLD"); v != "" {
 		p := strings.Split(v, ":")
 		for len(p) < 4 {
